@@ -283,7 +283,7 @@ PROPS.update({
         rule="generated simulations x stopping points; distinct = distinct program hash; non-trivial = some stop point left messages undelivered "
              "(in the event set or in channel queues)",
         fault_probes=["stop_point_enumerated", "dropped_before_build", "dropped_before_start", "ended_with_errors"],
-        expected_probes=["stop_point_enumerated", "dropped_before_build", "dropped_before_start", "ended_with_errors"],
+        expected_probes=["stop_point_enumerated", "dropped_before_build", "dropped_before_start", "ended_with_errors", "other_thread_waited_for_its_simulation"],
         assumptions=["sampled programs; stop points enumerated per program up to a bound"]),
 })
 
